@@ -24,8 +24,23 @@ RULE = ('random geometries, laminates, flags, loads and scale factors; pairs: kp
         'or generic flags; distinct by case parameters')
 
 
+def regen_gauss_table():
+    """the `*_tabulated` theorems quote the Gauss-Legendre table of the C library (Gen/CTables/LegGauss*.lean): regenerate the C tables
+    from the tree under test as C10 does (files are rewritten only when their content changes)"""
+    import os
+    from tools import common
+    from tools.translate import ctables as ct
+    ct.emit_all(common.REPO, os.path.join(common.LEAN, 'CompmechVerif', 'Gen', 'CTables'), common.write_if_changed)
+
+
+
 def translate(ctx):
     pc.translated(ctx)
+    # num_at_zero_eq_analytic_* (Props/C14.lean) are about the numerically integrated kernels fkL_num: regenerated too
+    from tools.translate import gen_num
+    if not hasattr(ctx, '_num_ir'):
+        ctx._num_ir = gen_num.translate_all()
+    regen_gauss_table()
 
 
 def with_option(case, rng, prob=0.3):
